@@ -156,19 +156,52 @@ class Checker:
         self.ops = ops
         self.geo = geo
         self.issues = []
+        self.recs = []
+        self._invalid = False
+        self._scanned = 0
+        self.poisoned = False
+
+    def invalid_partition_on_path(self, upto):
+        """Does the ray (records 0..upto: positions, probe and segment points) touch a point
+        where the geometry DEFINITION is not a partition (two volumes of one unit contain it,
+        or none)?  Then the input violates the property's "valid geometry" hypothesis there
+        (e.g. the shipped universes.org.json: volume 'c' of universe 'inner' contains the
+        masked volume 'inner_c') and the navigator's answer is not judged on this ray."""
+        if self.geo is None:
+            return False
+        if self._invalid:
+            return True
+        while self._scanned <= upto and self._scanned < len(self.recs):
+            r = self.recs[self._scanned]
+            self._scanned += 1
+            if "pos" not in r:
+                continue
+            p = [hf(x) for x in r["pos"]]
+            d = [hf(x) for x in r["dir"]]
+            ts = [0.0, DELTA, -DELTA] + [hf(t) for t, _ in r.get("seg", [])]
+            for t in ts:
+                st, _, note = self.geo.locate([p[k] + t * d[k] for k in range(3)])
+                if st is None and (note.startswith("overlap") or note.startswith("gap")):
+                    self._invalid = True
+                    return True
+        return False
 
     def issue(self, kind, i, what, sig=None, **kw):
+        if kind not in ("position", "limited-search", "state") and self.invalid_partition_on_path(i):
+            self.ctx.count("not-judged:invalid-partition-region")
+            self.poisoned = True
+            return
         self.issues.append({"kind": kind, "op_index": i, "what": what, "signature": sig, "detail": kw})
 
     def run(self, recs):
         ctx = self.ctx
+        self.recs = recs
         pending = None       # (index, expected-ahead stack, nav stack, label)
-        poisoned = False
         prev = None
         for i, r in enumerate(recs):
             op = r["op"]
             if op == "T":
-                if not poisoned:
+                if not self.poisoned:
                     if not r.get("exited"):
                         self.issue("no-exit", i, "ray did not leave the world within %d crossings" % r.get("ncross", -1))
                 continue
@@ -180,13 +213,13 @@ class Checker:
             S = stk(r["stack"])
             pp, ph, pm = stk(r.get("pp")), stk(r.get("ph")), stk(r.get("pm"))
             p0 = stk(r.get("p0"))
-            if poisoned:
+            if self.poisoned:
                 prev = r
                 continue
             if r.get("fail"):
                 if pp is not None or p0 is not None:
                     self.issue("lost", i, "navigator reported failure (lost track) at a point with a stable location")
-                poisoned = True
+                self.poisoned = True
                 prev = r
                 continue
             # position bookkeeping
@@ -303,12 +336,12 @@ class Checker:
                                 self.issue("desync", i, "set_dir reversed the track after cross_boundary: the "
                                            "re-entrant flag makes the next cross_boundary a no-op, the navigator "
                                            "stays in the entered volume", KNOWN_SIG, nav=r["stack"], ahead=r["pp"])
-                                poisoned = True
+                                self.poisoned = True
                             else:
                                 self.issue("set_dir-flag", i, "re-entrant flag set after crossing although the new "
                                            "direction stays in the entered volume", nav=r["stack"], ahead=r["pp"])
                         else:
-                            poisoned = True   # undecidable near-tangent reversal: stop judging this ray
+                            self.poisoned = True   # undecidable near-tangent reversal: stop judging this ray
                     else:
                         pending = (i, "set_dir-after-cross")
             prev = r
@@ -382,6 +415,13 @@ def bundled_scenarios(ctx):
         except Exception:
             g = None
         rays = []
+        if fn == "universes.org.json":
+            # corpus: the ray reported by C11 -- it passes through the region where volume 'c' of
+            # universe 'inner' overlaps the masked volume 'inner_c' (the shipped logic of 'c' is
+            # (inner_c | ~a) & ~b): not a partition there, so the ray must NOT be judged
+            dd = gen.normalize([-0.778, 0.380, -0.5])
+            st0 = [0.6017 - 0.2508 * dd[0], -3.7217 - 0.2508 * dd[1], 1.1379 - 0.2508 * dd[2]]
+            rays.append((st0, dd, ["F", "M 0x1p-1", "F", "T 30"]))
         for _ in range(nr):
             pnt, dr = bundled_ray(r, lo, hi)
             rays.append((pnt, dr, gen.gen_program(r, r.choice([3, 6]), dr)))
